@@ -343,3 +343,11 @@ def st(wall):
     if SYM:
         return _symdt.SymST(wall)
     return (datetime.datetime(1970, 1, 1) + datetime.timedelta(seconds=wall)).timetuple()
+
+
+def untraced(fn, *a):
+    """run a helper that only inspects concrete interpreter state without symbolic tracing"""
+    if SYM:
+        with NoTracing():
+            return fn(*a)
+    return fn(*a)
